@@ -697,6 +697,7 @@ func utApprox(c *utCase) Verdict {
 		return s / total
 	}
 	top := 2 * n1 * n2
+	wants := map[string]float64{}
 	for _, alt := range []string{"less", "two", "greater"} {
 		res, err := stats.MannWhitneyUTest(x1, x2, utAlt(alt))
 		if err != nil || res == nil {
@@ -742,6 +743,7 @@ func utApprox(c *utCase) Verdict {
 		} else {
 			want = utNormalApprox(t, n1, n2, u2x, alt)
 		}
+		wants[alt] = want
 		if !utAuxEq(res.P, want) {
 			v.Signature = sig
 			v.Detail = fmt.Sprintf("auxiliary (n1=%d n2=%d ties=%v exact=%v): alt=%s U=%v P=%v, independent evaluation gives %v",
@@ -754,6 +756,28 @@ func utApprox(c *utCase) Verdict {
 			if lerr != nil || p != res.P {
 				v.Signature = "legacy-disagrees"
 				v.Detail = fmt.Sprintf("auxiliary: benchstat.UTest = (%v, %v), stats P = %v", p, lerr, res.P)
+				return v
+			}
+		}
+	}
+	// the path benchstat itself takes for the two-sided test, at these sizes too: benchmath's
+	// assume-nothing comparison, in both argument orders - twice the smaller one-sided value
+	// capped at 1, unchanged when the samples are swapped (default limits only: benchmath's
+	// U-test does not follow this package's exported limits)
+	if c.EL == 0 {
+		wantTwo := math.Min(1, 2*math.Min(wants["less"], wants["greater"]))
+		thr := benchmath.Thresholds{CompareAlpha: 0.05}
+		s1 := benchmath.NewSample(append([]float64(nil), x1...), &thr)
+		s2 := benchmath.NewSample(append([]float64(nil), x2...), &thr)
+		for _, o := range []struct {
+			name string
+			cmp  benchmath.Comparison
+		}{{"Compare(s1,s2)", benchmath.AssumeNothing.Compare(s1, s2)}, {"Compare(s2,s1)", benchmath.AssumeNothing.Compare(s2, s1)}} {
+			if !utAuxEq(o.cmp.P, wantTwo) {
+				v.Signature = "compare-two-sided"
+				v.Detail = fmt.Sprintf("auxiliary (n1=%d n2=%d ties=%v exact=%v): benchmath.AssumeNothing.%s: P=%v, twice the smaller one-sided value (less %v, greater %v) capped at 1 is %v",
+					n1, n2, c.Ties, c.Exact, o.name, o.cmp.P, wants["less"], wants["greater"], wantTwo)
+				v.Want, v.Got = wantTwo, o.cmp.P
 				return v
 			}
 		}
